@@ -6,7 +6,6 @@ import (
 	"errors"
 	"net/http"
 	"net/http/httptest"
-	"net/url"
 	"strings"
 
 	"github.com/getkin/kin-openapi/openapi3"
@@ -46,14 +45,6 @@ type c05Case struct {
 	Defaults   bool     `json:"defaults"`
 	Other      bool     `json:"other"`
 	Upper      bool     `json:"upper"`
-}
-
-// c05PathEscape percent-encodes a path segment as a client does: everything url.PathEscape encodes except the
-// sub-delimiters ';' and ',' (legal in a segment, and the structure of the path styles)
-func c05PathEscape(seg string) string {
-	e := url.PathEscape(seg)
-	e = strings.ReplaceAll(e, "%3B", ";")
-	return strings.ReplaceAll(e, "%2C", ",")
 }
 
 func errClass(err error) string {
@@ -135,10 +126,10 @@ func c05Run(c *Case) []any {
 		}
 		switch w.Kind {
 		case "path":
-			target += "/" + c05PathEscape(w.Seg)
+			target += "/" + w.Seg // the wire text is the request text: percent-encoding is part of ParamCodec!Wire
 		case "query":
 			for _, p := range w.Pairs {
-				q = append(q, url.QueryEscape(p.K)+"="+url.QueryEscape(p.V))
+				q = append(q, p.K+"="+p.V)
 			}
 		case "header":
 			hdr.Set(name, w.Val)
